@@ -271,6 +271,9 @@ fn make_record(ch: &[u32], variant: u8, which: u8, picks: &[u8], t: usize) -> Va
     if variant % 4 == 2 {
         // macros in play: object-like and function-like, used by an appended function
         text.push_str("#define TWICE_ZZ(x) ((x) + (x))\n#define LIMIT_ZZ 12\n#define ZERO_ZZ() 7\n#define PAIR_ZZ(x, y) ((x) * (y))\nint macro_user_zz(int a) {\n    return TWICE_ZZ(a) + LIMIT_ZZ + ZERO_ZZ() + PAIR_ZZ(a, ZERO_ZZ()) + TWICE_ZZ(PAIR_ZZ(a, 3));\n}\n");
+        // conditions with several operators and macro invocations: trivia (also a line splice) lands inside them
+        // (the condition parser knows comparisons, && || !, defined, parentheses and literals; no arithmetic)
+        text.push_str("#define GE_ZZ(x, y) ((x) >= (y))\n#if LIMIT_ZZ >= 2 && ( ZERO_ZZ ( ) == 7 || defined ( NOT_DEFINED_ZZ ) ) && ! GE_ZZ ( 2 , LIMIT_ZZ ) && LIMIT_ZZ != 3\nint cond_a_zz ( int a ) { return a + 1 ; }\n#elif LIMIT_ZZ > 3 || ! defined ( LIMIT_ZZ )\nint cond_a_zz ( int a ) { return a + 2 ; }\n#else\nint cond_a_zz ( int a ) { return a + 3 ; }\n#endif\n#if ! ( LIMIT_ZZ < 20 ) || ZERO_ZZ ( ) != 7\nint cond_c_zz ( ) { return 4 ; }\n#elif GE_ZZ ( LIMIT_ZZ , 12 ) && true\nint cond_c_zz ( ) { return 5 ; }\n#endif\n#ifdef LIMIT_ZZ\nint cond_b_zz ( ) { return cond_a_zz ( 1 ) + cond_c_zz ( ) ; }\n#endif\n");
     }
     text.insert_str(0, "#define BAD_MACRO_ZZ undefined_in_macro_zz = 3\n");
     if inject {
@@ -293,7 +296,7 @@ fn make_record(ch: &[u32], variant: u8, which: u8, picks: &[u8], t: usize) -> Va
 }
 
 pub fn run(ctx: &mut Ctx) {
-    ctx.rule = "Generated programs (accepted, or rejected through one injected erroneous statement from an 8-entry catalogue incl. an error inside a macro expansion; with and without an include file holding the error; with object-like macros and function-like macros of 0, 1 and 2 parameters, also nested) x 6 trivia variants: at every existing blank/newline and on both sides of ( ) [ ] { } ; , a random choice of space, tabs, newlines, // and /* */ comments, backslash-newline splices and CRLF is inserted (never directly after < or >, never between a macro name and its parameter list; directive lines get horizontal trivia and splices between their tokens and blanks, comments or a splice in front of the #). Accepted: sources, stages, metadata and state identical. Rejected: still rejected with the same message. Located diagnostics x k in {1,2,7,50} blank or comment lines at the top of the file holding the error: same file, line + k, same column and message; lines added in other files do not move it. Non-trivial = >= 10 insertion points used with >= 3 trivia kinds, and for diagnostics a located error. Distinct = hash of the record.".into();
+    ctx.rule = "Generated programs (accepted, or rejected through one injected erroneous statement from an 8-entry catalogue incl. an error inside a macro expansion; with and without an include file holding the error; with object-like macros and function-like macros of 0, 1 and 2 parameters, also nested, and #if / #elif conditions of several operators over them) x 6 trivia variants: at every existing blank/newline and on both sides of ( ) [ ] { } ; , a random choice of space, tabs, newlines, // and /* */ comments, backslash-newline splices and CRLF is inserted (never directly after < or >, never between a macro name and its parameter list; directive lines get horizontal trivia and splices between their tokens and blanks, comments or a splice in front of the #). Accepted: sources, stages, metadata and state identical. Rejected: still rejected with the same message. Located diagnostics x k in {1,2,7,50} blank or comment lines at the top of the file holding the error: same file, line + k, same column and message; lines added in other files do not move it. Non-trivial = >= 10 insertion points used with >= 3 trivia kinds, and for diagnostics a located error. Distinct = hash of the record.".into();
     if !ctx.replay_tier(&check_record) {
         return;
     }
